@@ -74,7 +74,8 @@ func VerifC08Canonical() {
 		return tkn, nil
 	}
 	var data []byte
-	switch vChoose("class", 6) {
+	class := vChoose("class", 6)
+	switch class {
 	case 0: // one byte replaced by 1..W arbitrary bytes, at any offset
 		p := vChoose("offset", len(canonical))
 		w := 1 + vChoose("window", vParam("W"))
@@ -145,7 +146,8 @@ func VerifC08Canonical() {
 	// known finding C08-F1: the lenient DAG-CBOR decoder maps several byte
 	// strings to the same envelope; region = the bytes decode to exactly the
 	// signed envelope
-	same := decoded != nil && datamodel.DeepEqual(decoded, env0)
+	// (bytes after the complete envelope are not an alternative item encoding: class 4 is outside the region)
+	same := decoded != nil && datamodel.DeepEqual(decoded, env0) && class != 4
 	vKnown("C08-F1", same)
 	vAssert(vEqBytes(data, canonical), "a byte string other than the canonical encoding is accepted for the same signed content (same token, different CID)")
 }
